@@ -257,6 +257,18 @@ impl DbValue {
         }
     }
 
+    fn fixed_value(value_index: &DbValueIndex) -> Result<[u8; 8], DbError> {
+        value_index.value().try_into().map_err(|_| {
+            DbError::db(
+                DbErrorType::TypeError,
+                format!(
+                    "Invalid size of a stored numeric value ({})",
+                    value_index.value().len()
+                ),
+            )
+        })
+    }
+
     pub(crate) fn load_db_value<D: StorageData>(
         value_index: DbValueIndex,
         storage: &Storage<D>,
@@ -273,21 +285,11 @@ impl DbValue {
                     )
                 }
             }
-            I64_META_VALUE => {
-                let mut bytes = [0_u8; 8];
-                bytes.copy_from_slice(value_index.value());
-                DbValue::I64(i64::from_le_bytes(bytes))
-            }
-            U64_META_VALUE => {
-                let mut bytes = [0_u8; 8];
-                bytes.copy_from_slice(value_index.value());
-                DbValue::U64(u64::from_le_bytes(bytes))
-            }
-            F64_META_VALUE => {
-                let mut bytes = [0_u8; 8];
-                bytes.copy_from_slice(value_index.value());
-                DbValue::F64(DbF64::from(f64::from_le_bytes(bytes)))
-            }
+            I64_META_VALUE => DbValue::I64(i64::from_le_bytes(Self::fixed_value(&value_index)?)),
+            U64_META_VALUE => DbValue::U64(u64::from_le_bytes(Self::fixed_value(&value_index)?)),
+            F64_META_VALUE => DbValue::F64(DbF64::from(f64::from_le_bytes(Self::fixed_value(
+                &value_index,
+            )?))),
             STRING_META_VALUE => {
                 if value_index.is_value() {
                     DbValue::String(String::from_utf8_lossy(value_index.value()).to_string())
